@@ -669,32 +669,40 @@ def check_blocks(case):
 def strat_conn(draw, tier):
     w = draw(st.sampled_from([12, 24]))
     h = draw(st.sampled_from([12, 24 if tier == "thorough" else 12]))
+    # the chip the host is attached to (what sver reports for (255, 255)):
+    # (0, 0) on a healthy machine, another Ethernet chip when the machine
+    # was booted through another board
+    rx, ry = draw(st.sampled_from([(0, 0), (0, 0), (8, 4), (4, 8), (4, 0),
+                                   (1, 0), (3, 5), (11, 7), (6, 6)]))
     origins = [(x, y) for x in range(w) for y in range(h)
-               if boardtile.is_origin(x, y)]
+               if boardtile.is_origin(x, y, rx, ry)]
     up = draw(st.lists(st.sampled_from(origins), unique=True,
                        max_size=len(origins)))
     targets = draw(st.lists(st.tuples(st.integers(0, w - 1),
                                       st.integers(0, h - 1)),
                             min_size=1, max_size=10))
     return {"w": w, "h": h, "up": sorted(map(list, up)),
+            "root": [rx, ry],
             "targets": [list(t) for t in targets],
             "discover": draw(st.sampled_from([True, True, False]))}
 
 
 def check_conn(case):
     w_, h_ = case["w"], case["h"]
+    root = tuple(case.get("root", (0, 0)))
     m = scamp.Machine(w_, h_, buffer_size=256).populate()
-    up = set(tuple(c) for c in case["up"]) | {(0, 0)}
+    m.root = root
+    up = set(tuple(c) for c in case["up"]) | {root}
     for c in m.chips.values():
-        ox, oy = boardtile.board_origin(c.x, c.y)
+        ox, oy = boardtile.board_origin(c.x, c.y, *root)
         c.local_eth = (ox % w_, oy % h_)
         c.eth_up = (c.x, c.y) in up
         c.ip = (10, 1, c.x, c.y)
     for c in m.chips.values():
-        c.sync_system_memory(router=False, p2p=(c.x, c.y) == (0, 0))
+        c.sync_system_memory(router=False, p2p=(c.x, c.y) == root)
     with World(m) as w:
         for (x, y) in up:
-            if (x, y) != (0, 0):
+            if (x, y) != root:
                 w.add_host("10.1.%d.%d" % (x, y), (x, y))
         with sut("discover_connections"):
             mc = w.controller()
@@ -708,9 +716,9 @@ def check_conn(case):
             n0 = len(m.log)
             with sut("read"):
                 mc.read(SDRAM, 4, x, y)
-            ox, oy = boardtile.board_origin(x, y)
+            ox, oy = boardtile.board_origin(x, y, *root)
             eth = (ox % w_, oy % h_)
-            if case["discover"] and eth in up and eth != (0, 0):
+            if case["discover"] and eth in up and eth != root:
                 host = "10.1.%d.%d" % eth
             else:
                 host = "spinn-0-0"
@@ -718,10 +726,12 @@ def check_conn(case):
                 require(e["conn"] == host, "a command does not travel over "
                         "the connection of the board that holds the target",
                         {"target": [x, y], "board_ethernet_chip": list(eth),
+                         "root_chip": list(root),
                          "got": e["conn"], "expected": host})
                 require((e["x"], e["y"]) == (x, y), "wrong destination", {})
     return {"nontrivial": case["discover"] and len(up) >= 2,
-            "classes": ["connections%d" % min(len(up), 4)]}
+            "classes": ["connections%d" % min(len(up), 4)] +
+                       (["root-elsewhere"] if root != (0, 0) else [])}
 
 
 def _strat(which):
@@ -759,6 +769,6 @@ CLAUSES = [
            rule="12x12 / 24x12 (24x24) machines with drawn sets of working "
                 "Ethernet chips, with and without discover_connections, reads "
                 "from drawn chips; non-trivial = >= 2 connections discovered",
-           examples={"quick": 40, "thorough": 200},
+           examples={"quick": 150, "thorough": 1500},
            shards={"quick": 4, "thorough": 16}),
 ]
